@@ -21,7 +21,7 @@ func init() {
 		Rule: "random Muxer histories (1..N streams, explicit and automatic PIDs, any stream type, ES descriptors, Add/Remove/re-Add/SetPCRPID/WriteTables/WriteData interleavings, failing calls in between, " +
 			"retransmit periods 1..50) with payload lengths around every k*184 boundary and above 65535, every writer-supported PES optional-header combination and first-packet adaptation fields sized to leave " +
 			"0,1,2,few,many bytes (and too big to share a packet with the PES header); plus a sweep of every payload length 1..1200 for several header/AF shapes; the Muxer's bytes are demultiplexed by the library " +
-			"(explicit 188) and independently reassembled by the reference decoder; distinct = hash of the muxed bytes; non-trivial = ≥2 PES compared",
+			"(explicit 188) and independently reassembled by the reference decoder; plus long sessions (stage endurance: 131 500 units on a PID, PIDs silent for 131 072+ packets, units up to 2 MiB, hundreds of emissions, thousands of automatic PIDs); distinct = hash of the muxed bytes; non-trivial = ≥2 PES compared",
 		Assumptions: []string{"explicit elementary PIDs are ≥ 0x20 (the demuxer hard-wires PID 1 as CAT and 0x10–0x14, 0x1E, 0x1F as DVB SI whatever the PMT says), not the PMT PID, not 0x1FFF", "StreamID 0 means: derive from the stream type (compared with StreamType.ToPESStreamID)",
 			"when the caller's adaptation field and the PES header do not fit one packet the field travels in an adaptation-only packet and is not part of DemuxerData.FirstPacket; the PES itself must arrive intact"},
 		Shards: 32,
@@ -288,6 +288,7 @@ func checkRoundTrip(c *mon.Ctx, stage string, idx int64, hr *HistRun) {
 }
 
 func runC01(c *mon.Ctx) {
+	enduranceSessions(c, func(stage string, i int64, shape string, hr *HistRun) { checkRoundTrip(c, stage, i, hr) })
 	n := c.Pick(2000, 150000)
 	for i := int64(0); i < n; i++ {
 		if !c.Mine("histories", i) {
